@@ -24,6 +24,15 @@ from d42.declaration.types import (
 from d42.utils import is_ellipsis
 
 
+def _literal(value: Any) -> str:
+    # an instance of a subclass of a built-in type (an enum member) prints as the built-in
+    # value: its own repr (<Color.RED: 1>) is not an expression
+    for base in (bool, int, float, str, bytes):
+        if isinstance(value, base):
+            return base.__repr__(value)
+    return repr(value)
+
+
 class Representor(SchemaVisitor[str]):
     def __init__(self, name: str = "schema", indent: int = 4) -> None:
         self._name = name
@@ -45,26 +54,26 @@ class Representor(SchemaVisitor[str]):
         r = f"{self._name}.bool"
 
         if schema.props.value is not Nil:
-            r += f"({schema.props.value!r})"
+            r += f"({_literal(schema.props.value)})"
         return r
 
     def visit_int(self, schema: IntSchema, *, indent: int = 0, **kwargs: Any) -> str:
         r = f"{self._name}.int"
 
         if schema.props.value is not Nil:
-            r += f"({schema.props.value!r})"
+            r += f"({_literal(schema.props.value)})"
 
         if schema.props.min is not Nil:
-            r += f".min({schema.props.min!r})"
+            r += f".min({_literal(schema.props.min)})"
 
         if schema.props.max is not Nil:
-            r += f".max({schema.props.max!r})"
+            r += f".max({_literal(schema.props.max)})"
 
         return r
 
     def _represent_float(self, value: float) -> str:
         # inf and nan have no literal: repr() gives bare names that cannot be evaluated
-        return repr(value) if isfinite(value) else f"float({str(value)!r})"
+        return float.__repr__(value) if isfinite(value) else f"float({str(value)!r})"
 
     def visit_float(self, schema: FloatSchema, *, indent: int = 0, **kwargs: Any) -> str:
         r = f"{self._name}.float"
@@ -79,7 +88,7 @@ class Representor(SchemaVisitor[str]):
             r += f".max({self._represent_float(schema.props.max)})"
 
         if schema.props.precision is not Nil:
-            r += f".precision({schema.props.precision!r})"
+            r += f".precision({_literal(schema.props.precision)})"
 
         return r
 
@@ -87,25 +96,25 @@ class Representor(SchemaVisitor[str]):
         r = f"{self._name}.str"
 
         if schema.props.value is not Nil:
-            r += f"({schema.props.value!r})"
+            r += f"({_literal(schema.props.value)})"
 
         if schema.props.alphabet is not Nil:
-            r += f".alphabet({schema.props.alphabet!r})"
+            r += f".alphabet({_literal(schema.props.alphabet)})"
 
         if schema.props.substr is not Nil:
-            r += f".contains({schema.props.substr!r})"
+            r += f".contains({_literal(schema.props.substr)})"
 
         if schema.props.pattern is not Nil:
-            r += f".regex({schema.props.pattern!r})"
+            r += f".regex({_literal(schema.props.pattern)})"
 
         if schema.props.len is not Nil:
-            r += f".len({schema.props.len!r})"
+            r += f".len({_literal(schema.props.len)})"
         elif (schema.props.min_len is not Nil) and (schema.props.max_len is not Nil):
-            r += f".len({schema.props.min_len!r}, {schema.props.max_len!r})"
+            r += f".len({_literal(schema.props.min_len)}, {_literal(schema.props.max_len)})"
         elif schema.props.min_len is not Nil:
-            r += f".len({schema.props.min_len!r}, ...)"
+            r += f".len({_literal(schema.props.min_len)}, ...)"
         elif schema.props.max_len is not Nil:
-            r += f".len(..., {schema.props.max_len!r})"
+            r += f".len(..., {_literal(schema.props.max_len)})"
 
         return r
 
@@ -129,13 +138,13 @@ class Representor(SchemaVisitor[str]):
             r += "\n" + " " * indent + "])"
 
         if schema.props.len is not Nil:
-            r += f".len({schema.props.len!r})"
+            r += f".len({_literal(schema.props.len)})"
         elif (schema.props.min_len is not Nil) and (schema.props.max_len is not Nil):
-            r += f".len({schema.props.min_len!r}, {schema.props.max_len!r})"
+            r += f".len({_literal(schema.props.min_len)}, {_literal(schema.props.max_len)})"
         elif schema.props.min_len is not Nil:
-            r += f".len({schema.props.min_len!r}, ...)"
+            r += f".len({_literal(schema.props.min_len)}, ...)"
         elif schema.props.max_len is not Nil:
-            r += f".len(..., {schema.props.max_len!r})"
+            r += f".len(..., {_literal(schema.props.max_len)})"
 
         return r
 
@@ -155,7 +164,7 @@ class Representor(SchemaVisitor[str]):
             if is_ellipsis(key):
                 key_repr = val_repr = "..."
             else:
-                key_repr = f"optional({key!r})" if is_optional else repr(key)
+                key_repr = f"optional({_literal(key)})" if is_optional else _literal(key)
                 val_repr = val.__accept__(self, indent=indent + self._indent, **kwargs)
             pairs.append("{indent}{key}: {val}".format(
                 indent=" " * (indent + self._indent),
@@ -181,7 +190,7 @@ class Representor(SchemaVisitor[str]):
         r = f"{self._name}.bytes"
 
         if schema.props.value is not Nil:
-            r += f"({schema.props.value!r})"
+            r += f"({_literal(schema.props.value)})"
         return r
 
     def visit_type_alias(self, schema: GenericTypeAliasSchema[TypeAliasPropsType],
